@@ -65,6 +65,14 @@ CHECKS = [
              "of |f|^2 (real, complex, with phase information, two sub-spaces at once), power_analyze(f) != P whenever |f|^2 "
              "is the distributed P, create_power_operator (Field and callable spectra) != diagonal of the distributed spectrum.",
      "design_ref": "DESIGN.md 4/C10"},
+    {"property_id": "C13", "engine": "A", "category": "other", "technique": TECH_A + "; the RNG is a nondeterministic stub (mean + std*xi), sample matrices are read off by linearity and T T^H == A is decided by z3",
+     "note": NOTE_A + " Statistical quality of NumPy's generator is outside the claim.",
+     "text": "Bounded symbolic verification of draw_sample for ScalingOperator, DiagonalOperator (all mode flips, partial-space "
+             "diagonals), SandwichOperator (matrix / diagonal / scaling buns, nested flips), BlockDiagonalOperator, makeOp on "
+             "multi-fields, OperatorAdapter, SumOperator and SamplingEnabler (real CG, n <= 2), real and complex sampling dtypes, "
+             "forward and inverse draws: samples are linear in the white noise with zero mean and z3 refutes T T^H != A (A^-1) for "
+             "ALL positive operator data; every refusal clause (no dtype, non-positive/complex data, non-invertible cases) must raise.",
+     "design_ref": "DESIGN.md 4/C13"},
 ]
 
 ALL = [f"C{i:02d}" for i in range(1, 37)]
